@@ -21,19 +21,16 @@ EXPLANATION = (
 ASSUMPTIONS = ["mysql_common::write_lenenc_int encodes every u64 size class correctly (trusted library)"]
 
 
-def run(ctx):
-    prog = ctx.prog("tls")
-    ctx.rule("C14.ok-layout", "OK packet slots and their sources; counts reach the lenenc writer unmodified")
-    ctx.rule("C14.arg-flow", "complete_one -> Finalizer::Ok -> write_ok_packet keeps (rows, last_insert_id) in order")
-    ctx.rule("C14.zero-column-count", "row counter for zero-column resultsets: +1 per end_row, read unmodified at completion")
-
+def ok_layout(ctx, prog, RID):
+    """Layout of the OK packet as written by writers::write_ok_packet (shared with C03, whose more-results chain depends on
+    where the status word sits)."""
     wok = prog.one(r"^writers::write_ok_packet$")
     ctx.fn(wok)
     sig = wok.raw["sig_in"]
     u64s = [i + 1 for i, t in enumerate(sig) if t == "u64"]
-    ctx.ob("C14.ok-layout", len(u64s) == 2, "the OK writer must take the two counts as u64 (signature %s)" % sig, fn=wok.path, construct="signature", nontrivial=False)
+    ctx.ob(RID, len(u64s) == 2, "the OK writer must take the two counts as u64 (signature %s)" % sig, fn=wok.path, construct="signature", nontrivial=False)
     seqs = wire.ok_sequences(prog, wok)
-    ctx.floor("C14.ok-layout", "Ok paths of the OK writer", len(seqs), 1)
+    ctx.floor(RID, "Ok paths of the OK writer", len(seqs), 1)
     for p, cls, ems in seqs:
         desc = [e.short()[:60] for e in ems]
         ok = len(ems) == 6 and len(u64s) == 2
@@ -53,11 +50,42 @@ def run(ctx):
                     ok = False
                     why = w
                     break
-        ctx.ob("C14.ok-layout", ok, "OK packet: " + why, fn=wok.path, construct="layout", where=wok.where(p.blocks[-1]), sample={"rule": "ok-layout", "sequence": desc})
+        ctx.ob(RID, ok, "OK packet: " + why, fn=wok.path, construct="layout", where=wok.where(p.blocks[-1]), sample={"rule": "ok-layout", "sequence": desc})
     # every byte of the OK packet goes through the recognised writers: no other call with the connection as receiver
     other = [cname(t["func"]) for bb, t in wok.calls() if (t.get("arg_tys") or [""])[0].find("packet::PacketConn<") >= 0
              and wire.classify_call(_P(wok, bb), 0, t) is None]
-    ctx.ob("C14.ok-layout", not other, "the OK writer emits through unrecognised calls: %s" % other, fn=wok.path, construct="recognised-writers", nontrivial=False)
+    ctx.ob(RID, not other, "the OK writer emits through unrecognised calls: %s" % other, fn=wok.path, construct="recognised-writers", nontrivial=False)
+
+
+
+def eof_layout(ctx, prog, RID):
+    """EOF packet: FE, warnings 0000, status word = the status parameter's bits, exactly one packet end."""
+    weof = prog.one(r"^writers::write_eof_packet$")
+    ctx.fn(weof)
+    seqs = wire.ok_sequences(prog, weof)
+    ctx.floor(RID, "Ok paths of the EOF writer", len(seqs), 1)
+    for p, cls, ems in seqs:
+        desc = [e.short()[:60] for e in ems]
+        prefix = b""
+        i = 0
+        while i < len(ems) and ems[i].const_bytes() is not None and ems[i].kind in ("raw", "fixed"):
+            prefix += ems[i].const_bytes()
+            i += 1
+        rest = ems[i:]
+        ok = prefix == b"\xfe\x00\x00" and len(rest) == 2 and rest[0].kind == "fixed" and rest[0].width == 2 and \
+            T.is_call(rest[0].value, r"StatusFlags>::bits$|::bits$") and T.contains(rest[0].value, lambda x: T.is_param(x)) and rest[1].kind == "end_packet"
+        ctx.ob(RID, ok, "EOF packet: sequence %s (need fe, warnings 0000, the status parameter's bits as u16, one packet end)" % desc, fn=weof.path, construct="eof-layout",
+               where=weof.where(p.blocks[-1]), sample={"rule": "eof-layout", "sequence": desc})
+
+
+def run(ctx):
+    prog = ctx.prog("tls")
+    ctx.rule("C14.ok-layout", "OK packet slots and their sources; counts reach the lenenc writer unmodified")
+    ctx.rule("C14.arg-flow", "complete_one -> Finalizer::Ok -> write_ok_packet keeps (rows, last_insert_id) in order")
+    ctx.rule("C14.zero-column-count", "row counter for zero-column resultsets: +1 per end_row, read unmodified at completion")
+
+    ok_layout(ctx, prog, "C14.ok-layout")
+    wok = prog.one(r"^writers::write_ok_packet$")
 
     # ---- arg-flow ---------------------------------------------------------------------------
     co = prog.one(r"^resultset::QueryResultWriter::<'a, W>::complete_one$")
@@ -189,6 +217,11 @@ def run(ctx):
                            "completion of a zero-column resultset reports rows = %s (need the row counter as left by the last end_row), last_insert_id = %s" % (term_str(rows)[:80], term_str(d.get("last_insert_id"))),
                            fn=fi.path, construct="completion-rows", where=fi.where(blk), sample={"rule": "zero-column-count", "rows": term_str(rows)[:80]})
     ctx.floor("C14.zero-column-count", "completion paths storing Finalizer::Ok", n, 1)
+
+    # every outbound clause of this property presupposes a faithful framing layer (one transport write site that sends the
+    # whole pending packet, in order, with a correct header): C04's framing rules are evaluated here as well
+    import rules.C04 as C04
+    C04.run(ctx, configs=["tls"])
 
 
 class _P:
